@@ -347,7 +347,11 @@ func (tc *typechecker) typeof(expr ast.Expression, typeExpected bool) *typeInfo 
 				panic(tc.errorf(expr, "invalid operation: ^ %s", t))
 			}
 			if t.IsConstant() {
-				ti.Constant, _ = t.Constant.unaryOp(ast.OperatorXor, t.Type)
+				c, err := t.Constant.unaryOp(ast.OperatorXor, t.Type)
+				if err != nil {
+					panic(tc.errorf(expr, "%s", err))
+				}
+				ti.Constant = c
 			}
 		case ast.OperatorReceive:
 			if t.Nil() {
